@@ -748,6 +748,12 @@ func (in *Interp) hashBytes(kind string, bs []*Term, outLen int) []*Term {
 		for i, b := range out {
 			r[i] = st.Const(8, uint64(b))
 		}
+		// natively computed applications take part in the collision-freedom
+		// axioms of later symbolic applications (a symbolic input that hashes to
+		// a value computed here must be that input)
+		if !strings.HasPrefix(kind, "crc") && len(in.hashApps[kind]) < 256 {
+			in.hashApps[kind] = append(in.hashApps[kind], hashApp{in: bs, out: r})
+		}
 		return r
 	}
 	in.ex.noteStub("hash " + kind + " on symbolic input = uninterpreted function + pairwise collision-freedom axioms")
